@@ -19,6 +19,9 @@ elif prop.endswith("e"):        # fifth round: seeds numbered from 12
 elif prop.endswith("f"):        # sixth round: seeds numbered from 15
     prop = prop[:-1]
     dst_k = str(int(k) + 14)
+elif prop.endswith("g"):        # seventh round: seeds numbered from 18
+    prop = prop[:-1]
+    dst_k = str(int(k) + 17)
 else:
     dst_k = k
 summary = sys.argv[5] if len(sys.argv) > 5 else ""
